@@ -28,7 +28,13 @@ SURVEY = bool(os.environ.get('VERIF_SURVEY'))
 # VERIF_SEED), so that a result that depends on that order is explored
 # under more than one.  A replay file records the hash seed it needs.
 LANE = os.environ.get('VERIF_LANE')
-LANES = {'quick': [(4, 1)], 'thorough': [(3, 1), (3, 2)]}   # (workers, n)
+# A lane may also run under other interpreter flags: -O (asserts and
+# __debug__ blocks stripped) and -bb (str(bytes) / bytes-vs-str comparison
+# raise BytesWarning) - environments in which the library is used and in
+# which the properties are stated no differently.  (-W error is not among
+# them: emitting a warning is legitimate behaviour.)
+LANES = {'quick': [(4, 1, ['-O', '-bb'])],
+         'thorough': [(3, 1, ['-O', '-bb']), (3, 2, [])]}   # (workers, n, flags)
 
 DEFAULTS = {
     'quick': {'runs': 10 ** 9, 'budget_s': 20.0, 'chunk': 100},
@@ -339,6 +345,7 @@ def write_replay(pid, scn, v, digest, extra=None):
                                          'detail': v['detail']},
           'violation': v, 'scenario': scn, 'digest': digest,
           'hashseed': int(os.environ.get('PYTHONHASHSEED', '0') or 0),
+          'pyflags': os.environ.get('VERIF_PYFLAGS', ''),
           'tree_sha256': lib.tree_sha256()}
 
     if extra:
@@ -370,6 +377,13 @@ def shrink_violation(mod, scn, v, L, max_seconds=30.0):
                                   for x in out.violations):
         small = scn
         out, err = execute_guarded(mod, small, L)
+
+    if err is not None:
+        # the violating scenario cannot be re-executed here (e.g. it hits
+        # the CPU cap in this process): it is reported as found, unshrunk
+        print('note: re-execution of a violating scenario failed: %s' %
+              err.strip().splitlines()[-1])
+        return scn, v, None, used
 
     vv = [x for x in out.violations if signature(x) == sig]
     return small, (vv[0] if vv else v), out.digest, used
@@ -460,18 +474,20 @@ def run_check(pid, tier):
         import subprocess
         import tempfile
 
-        for nw, n in LANES[tier]:
+        for nw, n, pyflags in LANES[tier]:
             hs = derive_seed(master, 'hashseed', tier, n) % (2 ** 32 - 1) + 1
             fd, outp = tempfile.mkstemp(prefix='verif_lane_', suffix='.pkl')
             os.close(fd)
             env = dict(os.environ, PYTHONHASHSEED=str(hs), VERIF_LANE=str(n),
+                       VERIF_PYFLAGS=' '.join(pyflags),
                        VERIF_LANE_OUT=outp, VERIF_WORKERS=str(nw),
                        VERIF_BUDGET_S=str(max(1.0, deadline - time.time())))
             pr = subprocess.Popen(
-                [sys.executable, os.path.join(VERIF, 'check.py'),
+                [sys.executable] + pyflags +
+                [os.path.join(VERIF, 'check.py'),
                  '--property', pid, '--tier', tier],
                 env=env, stdout=subprocess.PIPE, stderr=subprocess.STDOUT)
-            lanes.append((hs, outp, pr))
+            lanes.append((hs, outp, pr, pyflags))
             nworkers -= nw
 
     with cf.ProcessPoolExecutor(max_workers=nworkers, mp_context=ctx) as ex:
@@ -572,7 +588,7 @@ def run_check(pid, tier):
 
     hash_seeds = [0]
 
-    for hs, outp, pr in lanes:
+    for hs, outp, pr, pyflags in lanes:
         import pickle
 
         try:
@@ -595,6 +611,7 @@ def run_check(pid, tier):
             continue
 
         hash_seeds.append(hs)
+        agg.setdefault('pyflags', []).append(' '.join(pyflags))
         res['agg']['violations'] = []
         merge_agg(agg, res['agg'])
         harness_fail = harness_fail or res['harness_fail']
@@ -706,6 +723,7 @@ def build_evidence(mod, pid, tier, master, agg, wall, search_s, nviol,
         'workers': NWORKERS,
         'hash_seeds': {
             'values': agg.get('hash_seeds', [0]),
+            'interpreter_flags_of_the_child_lanes': agg.get('pyflags', []),
             'note': 'PYTHONHASHSEED of the processes the scenarios ran in: '
                     'the main process (sweeps, regressions, most of the '
                     'random search) under 0, a share of the random search '
